@@ -142,7 +142,9 @@ channel_release(struct channel* self)
 void
 channel_accept_writes(struct channel* self, uint32_t tf)
 {
+    lock_acquire(&self->lock);
     self->is_accepting_writes = tf;
+    lock_release(&self->lock);
     condition_variable_notify_all(&self->notify_space_available);
 }
 
